@@ -10,6 +10,13 @@
       semantics is an arbitrary function on the protected state, so a native that is not flagged safe
       may do anything.
 
+    * the six higher-order natives of lib/base/array-script.cpp (sort/map/reduce/filter/any/all) are INTERPRETED
+      (`hofInvoke`): whether each tests its callback's flag under `Sandboxed` is a generated flag (`cfg.cbCheck`),
+    * operators at the level of value types (lib/base/value-operators.cpp: which operand types are accepted, what is
+      returned, when an error is raised),
+    * two ghost logs: `calls` (every function actually invoked) and `reads` (every attribute of a live config object
+      whose value `Object::GetFieldByName` handed to the script).
+
   Nothing here is nicer than the code: an unguarded mutating node performs its mutation also in a
   sandboxed frame, errors keep the state reached so far (C++ exceptions do not roll back), try/except
   continues from that state.
@@ -198,6 +205,8 @@ structure Env where
   locals : List (String × Value) := []
   closures : List (String × (List String × Expr)) := []
   calls : List Callee := []
+  /-- ghost log: (type, field) of every attribute of a live config object whose VALUE was handed to the script (newest first) -/
+  reads : List (String × String) := []
   deriving Repr, Inhabited
 
 /-- State-and-error monad in which an error KEEPS the state (a C++ exception undoes nothing). -/
@@ -235,6 +244,9 @@ structure Cfg where
   refGetSandboxed : Bool := true             -- generated: the literal `sandboxed` argument in Reference::Get (reference.cpp:22)
   initDictOff : Bool := true                 -- generated: `if (frame.Sandboxed) init_dict = false;` (expression.cpp:758-759)
   importSandboxed : Bool := true             -- generated: VMOps::FindVarImport reads through GetField(…, frame.Sandboxed, …) (vmops.hpp:43-53)
+  /-- generated per higher-order native (array-script.cpp:83-212 `Array#sort/map/reduce/filter/any/all`): its body tests
+      `vframe->Sandboxed && !function->IsSideEffectFree()` before it invokes the script-supplied function. -/
+  cbCheck : String → Bool := fun _ => true
   /-- Types whose instantiation has an effect on process-wide state: `Type::Instantiate` builds the object, the script drops
       it, and the destructor runs.  `Application::~Application()` (lib/base/application.cpp:105-108) executes
       `m_Instance = nullptr` unconditionally, so this is true of every instantiable type derived from Application. -/
@@ -271,8 +283,25 @@ def Value.typeName : Value → String
 def numOf : Value → Option Int
   | .empty => some 0 | .num n => some n | .bool b => some (if b then 1 else 0) | _ => none
 
-/-- lib/base/value-operators.cpp, reduced to integers/strings/string containers; everything else is a
-    script error (never a state change — operators are free functions on values). -/
+/-- Operands of the arithmetic operators as value-operators.cpp reads them: `(IsNumber() || IsEmpty())` on both sides and
+    not both Empty; Empty counts as 0.  Booleans, strings and objects are NOT numbers there (`IsNumber()` is
+    `GetType() == ValueNumber`). -/
+def numPair (a b : Value) : Option (Int × Int) :=
+  match a, b with
+  | .num m, .num n => some (m, n)
+  | .num m, .empty => some (m, 0)
+  | .empty, .num n => some (0, n)
+  | _, _ => none
+
+def opErr (op : String) (a b : Value) : Except String Value :=
+  .error ("Operator " ++ op ++ " cannot be applied to values of type '" ++ a.typeName ++ "' and '" ++ b.typeName ++ "'")
+
+/-- lib/base/value-operators.cpp at the level of value TYPES (numbers are integers, containers hold strings): which operand
+    types an operator accepts, what type it returns, when it raises — never a state change, the operators are free
+    functions on values.  `+` (:208-235): numbers, strings (with Empty/number), Array+Array/Empty (a NEW array),
+    Dictionary+Dictionary/Empty (a NEW dictionary), Empty+Empty and everything else raise.  `-` (:257-298): numbers,
+    Array-Array/Empty (a NEW array).  `* ^ & | << >>`: numbers only.  `/` `%`: right side Empty or 0 raises.
+    `< > <= >=`: two strings, numbers, two arrays. -/
 def binop (op : BinOp) (a b : Value) : Except String Value :=
   match op with
   | .equal => .ok (.bool (a == b))
@@ -286,30 +315,68 @@ def binop (op : BinOp) (a b : Value) : Except String Value :=
     | .empty => .ok (.bool true)
     | _ => .error "Invalid right side argument for 'in' operator"
   | .add => match a, b with
-    | .str x, y => .ok (.str (x ++ y.toStr))
-    | x, .str y => .ok (.str (x.toStr ++ y))
+    | .str x, .str y => .ok (.str (x ++ y))
+    | .str x, .empty => .ok (.str x)
+    | .empty, .str y => .ok (.str y)
+    | .str x, .num n => .ok (.str (x ++ toString n))
+    | .num m, .str y => .ok (.str (toString m ++ y))
     | .arr x, .arr y => .ok (.arr (x ++ y))
-    | x, y => match numOf x, numOf y with
-      | some m, some n => .ok (.num (m + n))
-      | _, _ => .error "Operator + cannot be applied"
-  | _ => match numOf a, numOf b with
-    | some m, some n =>
+    | .arr x, .empty => .ok (.arr x)
+    | .empty, .arr y => .ok (.arr y)
+    | .dict x, .dict y => .ok (.dict (x ++ y))
+    | .dict x, .empty => .ok (.dict x)
+    | .empty, .dict y => .ok (.dict y)
+    | x, y => match numPair x y with
+      | some (m, n) => .ok (.num (m + n))
+      | none => opErr "+" x y
+  | .subtract => match a, b with
+    | .arr x, .arr y => .ok (.arr (x.filter fun s => !y.contains s))
+    | .arr x, .empty => .ok (.arr x)
+    | .empty, .arr _ => .ok (.arr [])
+    | x, y => match numPair x y with
+      | some (m, n) => .ok (.num (m - n))
+      | none => opErr "-" x y
+  | .divide => match b with
+    | .num n =>
+      if n = 0 then .error "Right-hand side argument for operator / is 0."
+      else match a with
+        | .num m => .ok (.num (m / n))
+        | .empty => .ok (.num 0)
+        | _ => opErr "/" a b
+    | .empty => .error "Right-hand side argument for operator / is Empty."
+    | _ => opErr "/" a b
+  | .modulo => match b with
+    | .num n =>
+      if n = 0 then .error "Right-hand side argument for operator % is 0."
+      else match a with
+        | .num m => .ok (.num (m % n))
+        | .empty => .ok (.num 0)
+        | .bool t => .ok (.num ((if t then 1 else 0) % n))
+        | _ => .error "cannot convert the left-hand side to a number"
+    | .empty => .error "Right-hand side argument for operator % is Empty."
+    | _ => opErr "%" a b
+  | .lessThan | .greaterThan | .lessThanOrEqual | .greaterThanOrEqual =>
+    match a, b with
+    | .str x, .str y =>
+      .ok (.bool (match op with
+        | .lessThan => x < y | .greaterThan => y < x | .lessThanOrEqual => !(y < x) | _ => !(x < y)))
+    | .arr _, .arr _ => .ok (.bool false)          -- element-wise (:  the elements' values are not modelled)
+    | x, y => match numPair x y with
+      | some (m, n) =>
+        .ok (.bool (match op with
+          | .lessThan => m < n | .greaterThan => m > n | .lessThanOrEqual => m ≤ n | _ => m ≥ n))
+      | none => opErr "<" x y
+  | _ => match numPair a b with
+    | some (m, n) =>
       match op with
-      | .subtract => .ok (.num (m - n))
       | .multiply => .ok (.num (m * n))
-      | .divide => if n = 0 then .error "Right-hand side argument for operator / is Empty or 0" else .ok (.num (m / n))
-      | .modulo => if n = 0 then .error "Right-hand side argument for operator % is Empty or 0" else .ok (.num (m % n))
       | .xor => .ok (.num (Int.ofNat (m.toNat ^^^ n.toNat)))
       | .binaryAnd => .ok (.num (Int.ofNat (m.toNat &&& n.toNat)))
       | .binaryOr => .ok (.num (Int.ofNat (m.toNat ||| n.toNat)))
       | .shiftLeft => .ok (.num (m * 2 ^ n.toNat))
       | .shiftRight => .ok (.num (m / 2 ^ n.toNat))
-      | .lessThan => .ok (.bool (m < n))
-      | .greaterThan => .ok (.bool (m > n))
-      | .lessThanOrEqual => .ok (.bool (m ≤ n))
-      | .greaterThanOrEqual => .ok (.bool (m ≥ n))
       | _ => .error "unreachable"
-    | _, _ => .error "Operator cannot be applied to these values"
+    | none => opErr "arithmetic" a b
 
 def SetOp.binop? : SetOp → Option BinOp
   | .literal => none | .add => some .add | .subtract => some .subtract | .multiply => some .multiply
@@ -363,7 +430,9 @@ def getField (cfg : Cfg) (sb : Bool) (ctx : Value) (field : String) : M Value :=
       | some v =>
         if sb && cfg.fieldCheck && cfg.hidden o.type field then       -- object.cpp:118-123
           M.fail (.hidden o.type field)
-        else pure v                                                   -- object.cpp:125
+        else do
+          M.modify fun e => { e with reads := (o.type, field) :: e.reads }     -- ghost: the attribute's value leaves the object
+          pure v                                                      -- object.cpp:125
   | .scope .globals =>                                                -- Namespace::GetFieldByName (namespace.cpp:134-144)
     match lookup field env.prot.consts with
     | some v => pure v
@@ -482,6 +551,64 @@ def bindParams : List String → List Value → List (String × Value)
   | p :: ps, a :: as => (p, a) :: bindParams ps as
   | _, _ => []
 
+/-- The natives that invoke a function handed to them by the script (lib/base/array-script.cpp:63-212). -/
+def hofNames : List String := ["Array#sort", "Array#map", "Array#reduce", "Array#filter", "Array#any", "Array#all"]
+
+/-- The argument tuples the callback is invoked with: one element each (map/filter/any/all, :117-120,:160-164,:181-185,
+    :202-206), neighbouring pairs for reduce (:141-143) and sort (:85-88; which pairs `std::sort` compares is not fixed —
+    the model takes neighbours). -/
+def cbTuples (name : String) (l : List String) : List (List Value) :=
+  if name = "Array#reduce" || name = "Array#sort" then (l.zip (l.drop 1)).map fun p => [.str p.1, .str p.2]
+  else l.map fun x => [.str x]
+
+/-- `function->Invoke({…})` once per tuple, in order; an error of the callback ends the native (C++ exception). -/
+def invokeEach (inv : List Value → M Value) : List (List Value) → M Unit
+  | [] => pure ()
+  | a :: rest => do let _ ← inv a; invokeEach inv rest
+
+/-- A script function applied to evaluated arguments (the wrapper of VMOps::NewFunction, vmops.hpp:97-114). -/
+def applyClosure (ev : Expr → M Out) (id : String) (vs : List Value) : M Out := do
+  let env ← M.get
+  match lookup id env.closures with
+  | none => M.fail (.script "Argument is not a callable object.")
+  | some (params, body) =>
+    if vs.length < params.length then M.fail (.script "Too few arguments for function")    -- vmops.hpp:99-100
+    else
+      M.modify fun e => { e with calls := .script id :: e.calls }
+      let saved := (← M.get).locals
+      M.modify fun e => { e with locals := bindParams params vs }         -- vmops.hpp:104-110
+      let r ← ev body
+      M.modify fun e => { e with locals := saved }
+      pure (r.1, .ok)
+
+/-- A higher-order native of array-script.cpp on evaluated arguments: logged like every invocation; without a function
+    argument `sort` sorts a copy (:75-77) and the others raise (REQUIRE_NOT_NULL); with one, the callback's flag is tested
+    under `Sandboxed` iff the generated table says this native's body has that test (`cfg.cbCheck`), and then the callback
+    is invoked per element — a native through `invokeNative`, a script function through `applyClosure` (the nested frame
+    inherits `Sandboxed`, scriptframe.cpp:59-69: `ev` is the sandboxed evaluator).  The result is a value of the right
+    shape (the elements' values are not modelled). -/
+def hofInvoke (cfg : Cfg) (sb : Bool) (ev : Expr → M Out) (name : String) (self : Value) (vs : List Value) : M Out := do
+  M.modify fun e => { e with calls := .native name :: e.calls }
+  match self with
+  | .arr l =>
+    match vs with
+    | [] => if name = "Array#sort" then pure (.arr l, .ok) else M.fail (.script "Function argument must not be null")
+    | .fn cb :: _ =>
+      match cfg.native cb with
+      | none => M.fail (.script "Argument is not a callable object.")
+      | some g =>
+        if sb && cfg.cbCheck name && !g.safe then M.fail (.notSafe (.native cb))      -- array-script.cpp:83-84,111-112,…
+        else do
+          invokeEach (fun a => invokeNative cfg cb g .empty a) (cbTuples name l)
+          pure (if name = "Array#any" || name = "Array#all" then .bool true else .arr l, .ok)
+    | .closure id :: _ =>
+      if sb && cfg.cbCheck name then M.fail (.notSafe (.script id))                   -- script functions never carry the flag
+      else do
+        invokeEach (fun a => do let r ← applyClosure ev id a; pure r.1) (cbTuples name l)
+        pure (if name = "Array#any" || name = "Array#all" then .bool true else .arr l, .ok)
+    | _ => M.fail (.script "Function argument must not be null")
+  | _ => M.fail (.script "Self must be an array")
+
 /-- FunctionCallExpression::DoEvaluate from `if (!vfunc.IsObjectType<Function>())` on
     (expression.cpp:476-493), given the already resolved function value. -/
 def callValue (cfg : Cfg) (sb : Bool) (ev : Expr → M Out) (evArgs : List Expr → (List Value → M Out) → M Out)
@@ -492,23 +619,12 @@ def callValue (cfg : Cfg) (sb : Bool) (ev : Expr → M Out) (evArgs : List Expr 
     | none => M.fail (.script "Argument is not a callable object.")
     | some f =>
       if !f.safe && sb && cfg.callCheck then M.fail (.notSafe (.native name))          -- :481-482
-      else evArgs args fun vs => do let r ← invokeNative cfg name f self vs; pure (r, .ok)  -- :484-493
+      else evArgs args fun vs =>                                                          -- :484-493
+        if hofNames.contains name then hofInvoke cfg sb ev name self vs
+        else do let r ← invokeNative cfg name f self vs; pure (r, .ok)
   | .closure id => do
     if sb && cfg.callCheck then M.fail (.notSafe (.script id))        -- vmops.hpp:115: side_effect_free = false
-    else
-      let env ← M.get
-      match lookup id env.closures with
-      | none => M.fail (.script "Argument is not a callable object.")
-      | some (params, body) =>
-        evArgs args fun vs => do
-          if vs.length < params.length then M.fail (.script "Too few arguments for function")    -- vmops.hpp:99-100
-          else
-            M.modify fun e => { e with calls := .script id :: e.calls }
-            let saved := (← M.get).locals
-            M.modify fun e => { e with locals := bindParams params vs }         -- vmops.hpp:104-110
-            let r ← ev body
-            M.modify fun e => { e with locals := saved }
-            pure (r.1, .ok)
+    else evArgs args fun vs => applyClosure ev id vs
   | .type_ t => evArgs args fun vs =>                                 -- VMOps::ConstructorCall (:463-474): BEFORE the whitelist test (:481)
       if cfg.ctorEffect t then                                        -- vmops.hpp:81 type->Instantiate(args)
         if vs.isEmpty then do                                         -- the temporary dies with the script's value
